@@ -18,8 +18,8 @@ var c19Methods = [...]string{"GET", "HEAD", "PUT", "POST", "DELETE", "PATCH"}
 const (
 	c19Oversized = vcNumFaults + iota // well-formed response whose body exceeds MaxResponseBodySize
 	c19DialErr
-	c19NumKinds
-)
+	c19OversizedChunked // the same, chunked
+	)
 
 var c19Delays = [...]time.Duration{0, 300 * time.Millisecond, 1100 * time.Millisecond}
 
@@ -85,6 +85,8 @@ func c19Run(faults []int, methods []string, attemptsLo, attemptsHi int, callback
 		switch kind {
 		case c19Oversized:
 			c.segs = [][]byte{[]byte("HTTP/1.1 200 OK\r\nContent-Length: 9\r\n\r\n123456789")}
+		case c19OversizedChunked:
+			c.segs = [][]byte{[]byte("HTTP/1.1 200 OK\r\nTransfer-Encoding: chunked\r\n\r\n9\r\n123456789\r\n0\r\n\r\n")}
 		case vcOK:
 			c.segs = [][]byte{[]byte("HTTP/1.1 200 OK\r\nContent-Length: 2\r\n\r\nhi")}
 		default:
@@ -120,14 +122,14 @@ func c19Run(faults []int, methods []string, attemptsLo, attemptsHi int, callback
 	vAssert("body-stream-never-retried", !bodyStream || nw.dials <= 1)
 	overs, late := true, true
 	for i, t := range txs {
-		if t.kind == c19Oversized && i != len(txs)-1 {
+		if (t.kind == c19Oversized || t.kind == c19OversizedChunked) && i != len(txs)-1 {
 			overs = false
 		}
 		if withTimeout && t.begin >= T {
 			late = false
 		}
 	}
-	vAssert("oversized-response-never-retried", overs && (len(txs) == 0 || txs[len(txs)-1].kind != c19Oversized || err == ErrBodyTooLarge || method == "HEAD"))
+	vAssert("oversized-response-never-retried", overs && (len(txs) == 0 || (txs[len(txs)-1].kind != c19Oversized && txs[len(txs)-1].kind != c19OversizedChunked) || err == ErrBodyTooLarge || method == "HEAD"))
 	vAssert("no-transmission-after-the-timeout", late)
 	// a successful exchange is returned as such
 	if len(txs) > 0 && txs[len(txs)-1].kind == vcOK && nw.dials == len(txs) {
@@ -139,7 +141,7 @@ func c19Run(faults []int, methods []string, attemptsLo, attemptsHi int, callback
 // vhC19Faults: every method × MaxIdemponentCallAttempts ∈ [-1, maxAttempts]
 // (symbolic) × every fault sequence, no callbacks, no timeout.
 func vhC19Faults() {
-	faults := []int{vcOK, vcWriteErr, vcEOF, vcReadTimeout, c19Oversized, c19DialErr}
+	faults := []int{vcOK, vcWriteErr, vcEOF, vcReadTimeout, c19Oversized, c19DialErr, c19OversizedChunked}
 	if vParam("resetFault", 0) > 0 {
 		faults = append(faults, vcReadReset)
 	}
